@@ -4,10 +4,14 @@
    json      a document: scalars and member names are opaque literal bytes
    to_eebus  process_eebus_json_hierarchie_level      (ship/helper.go)
    wire d    JsonIntoEEBUSJson: compact rendering of to_eebus d, outer brackets stripped
-   from_eebus  JsonFromEEBUSJson, byte for byte: the ReplaceAll passes regenerated from
-             helper.go (gen/EebusTable.v), then the NUL trim
+   from_eebus  JsonFromEEBUSJson, byte for byte: outside string literals the ReplaceAll passes
+             regenerated from helper.go (gen/EebusTable.v), string literals copied, NUL trim
+   from_eebus_global  the same passes applied to the whole text (JsonFromEEBUSJson before the
+             repair "fix: leave string literals alone")
    render d  the compact JSON text of d;  norm d = d with every empty array turned into {}
-   lits_ok d no literal of d (string value or member name) contains "[{", "},{", "}]", "[]" *)
+   lits_wf d lexical well-formedness only: member names and string values are quote ... quote
+             with quotes inside only after a backslash; other literals hold no quote, bracket,
+             brace or comma.  Nothing is assumed about the content of strings. *)
 From Ship Require Import Base Eebus EebusProofs.
 From ShipGen Require Import EebusTable.
 
@@ -37,39 +41,41 @@ Print Assumptions C07_roundtrip_refuted.
 (* (c) witness 1: {"a":[]} comes back as {"a":{}} — an empty array is lost although every
    other hypothesis holds; the monitor classifies it as 11 *)
 Theorem C07_roundtrip_refuted_empty_array :
-  exists d, top_nonempty d = true /\ lits_ok d = true /\
+  exists d, top_nonempty d = true /\ lits_wf d = true /\
             from_eebus (wire d) <> render d /\ roundtrip_codes d (from_eebus (wire d)) = [11].
 Proof. exact refuted_empty_array. Qed.
 Print Assumptions C07_roundtrip_refuted_empty_array.
 
-(* (c) witness 2: {"a":"[{x}]"} comes back as {"a":"{x}"} — string content is rewritten *)
-Theorem C07_roundtrip_refuted_string :
-  exists d, top_nonempty d = true /\ has_empty_array d = false /\
-            from_eebus (wire d) <> render d /\ roundtrip_codes d (from_eebus (wire d)) = [12] /\
-            from_eebus (wire d) = hx "7b2261223a227b787d227d".
-Proof. exact refuted_string. Qed.
-Print Assumptions C07_roundtrip_refuted_string.
-
-(* (c) witness 3: the empty document {} has the empty wire text, which comes back empty *)
+(* (c) witness 2: the empty document {} has the empty wire text, which comes back empty *)
 Theorem C07_roundtrip_refuted_empty_document :
-  exists d, top_object d = true /\ lits_ok d = true /\ has_empty_array d = false /\
+  exists d, top_object d = true /\ lits_wf d = true /\ has_empty_array d = false /\
             wire d = [] /\ from_eebus (wire d) <> render d /\
             roundtrip_codes d (from_eebus (wire d)) = [13].
 Proof. exact refuted_empty_top. Qed.
 Print Assumptions C07_roundtrip_refuted_empty_document.
 
-(* (b) the round trip outside the three refuted regions, for all documents of any depth and
-   width: what comes back is, byte for byte, the document with its empty arrays turned
-   into empty objects *)
+(* (c) witness 3, the repaired defect: with the replacements applied to the whole text,
+   {"a":"[{x}]"} came back as {"a":"{x}"} (monitor code 12) *)
+Theorem C07_global_replacement_refuted_string :
+  exists d, top_nonempty d = true /\ lits_wf d = true /\ has_empty_array d = false /\
+            from_eebus_global (wire d) <> render d /\
+            roundtrip_codes d (from_eebus_global (wire d)) = [12] /\
+            from_eebus_global (wire d) = hx "7b2261223a227b787d227d".
+Proof. exact global_refuted_string. Qed.
+Print Assumptions C07_global_replacement_refuted_string.
+
+(* (b) the round trip outside the two refuted regions, for all documents of any depth and
+   width and ANY string contents: what comes back is, byte for byte, the document with
+   its empty arrays turned into empty objects *)
 Theorem C07_roundtrip_partial :
-  forall d, top_nonempty d = true -> lits_ok d = true ->
+  forall d, top_nonempty d = true -> lits_wf d = true ->
             from_eebus (wire d) = render (norm d).
 Proof. exact roundtrip_norm. Qed.
 Print Assumptions C07_roundtrip_partial.
 
 (* (b) hence the identity when the document has no empty array *)
 Theorem C07_roundtrip_partial_exact :
-  forall d, top_nonempty d = true -> lits_ok d = true -> has_empty_array d = false ->
+  forall d, top_nonempty d = true -> lits_wf d = true -> has_empty_array d = false ->
             from_eebus (wire d) = render d.
 Proof. exact roundtrip_exact. Qed.
 Print Assumptions C07_roundtrip_partial_exact.
@@ -77,17 +83,24 @@ Print Assumptions C07_roundtrip_partial_exact.
 (* the same in terms of the monitor the check runs on the implementation's outputs: on the
    model's output it can only ever report code 11, and nothing without an empty array *)
 Theorem C07_roundtrip_monitor_partial :
-  forall d, top_nonempty d = true -> lits_ok d = true ->
+  forall d, top_nonempty d = true -> lits_wf d = true ->
             incl (roundtrip_codes d (from_eebus (wire d))) [11] /\
             (has_empty_array d = false -> roundtrip_codes d (from_eebus (wire d)) = []).
 Proof. exact roundtrip_monitor. Qed.
 Print Assumptions C07_roundtrip_monitor_partial.
 
+(* the whole-text replacement was right exactly where no literal holds a pattern *)
+Theorem C07_global_replacement_partial :
+  forall d, top_nonempty d = true -> lits_ok d = true ->
+            from_eebus_global (wire d) = render (norm d).
+Proof. exact global_roundtrip. Qed.
+Print Assumptions C07_global_replacement_partial.
+
 (* (d) member order and literals (numbers to the last digit): what comes back is the text of
    a document with the same member names in the same order and the same scalar literals in
    the same order — even when empty arrays are lost *)
 Theorem C07_order_and_literals_partial :
-  forall d, top_nonempty d = true -> lits_ok d = true ->
+  forall d, top_nonempty d = true -> lits_wf d = true ->
   exists d', from_eebus (wire d) = render d' /\
              names_of d' = names_of d /\ scalars_of d' = scalars_of d /\
              (has_empty_array d = false -> d' = d).
@@ -97,13 +110,31 @@ Print Assumptions C07_order_and_literals_partial.
 (* (d) the wire tree itself keeps member names and scalar literals, in order *)
 Theorem C07_wire_keeps_names_and_literals :
   forall d, names_of (to_eebus d) = names_of d /\ scalars_of (to_eebus d) = scalars_of d.
-Proof. intros d. split; [exact (names_eebus d)|exact (scalars_eebus d)]. Qed.
+Proof. exact eebus_keeps_names_and_literals. Qed.
 Print Assumptions C07_wire_keeps_names_and_literals.
 
-(* the hypotheses are satisfiable by a non-trivial document (see EebusProofs.ex_doc) whose
-   wire text differs from its JSON text *)
+(* lits_wf asks nothing of string contents: any bytes without quote and backslash between
+   two quotes qualify (escapes are covered by str_tail_ok itself), and so does any
+   non-empty literal without quote, bracket, brace or comma *)
+Theorem C07_wellformed_string_literals :
+  forall body, forallb (fun c => negb (c =? 34) && negb (c =? 92)) body = true ->
+               lit_wf (34 :: body ++ [34]) = true.
+Proof. exact string_literal_wf. Qed.
+Print Assumptions C07_wellformed_string_literals.
+
+Theorem C07_wellformed_other_literals :
+  forall l, l <> [] -> forallb (fun c => negb (in_set c [34; 91; 93; 123; 125; 44])) l = true ->
+            lit_wf l = true.
+Proof. exact atom_literal_wf. Qed.
+Print Assumptions C07_wellformed_other_literals.
+
+(* the hypotheses are satisfiable by a non-trivial document (EebusProofs.ex_doc) whose
+   strings and a member name hold all four patterns: it round-trips exactly, its wire text
+   differs from its JSON text, and the whole-text replacement got it wrong *)
 Theorem C07_hypotheses_satisfiable :
-  top_nonempty ex_doc = true /\ lits_ok ex_doc = true /\ has_empty_array ex_doc = false /\
-  from_eebus (wire ex_doc) = render ex_doc /\ wire ex_doc <> render ex_doc.
+  top_nonempty ex_doc = true /\ lits_wf ex_doc = true /\ has_empty_array ex_doc = false /\
+  lits_ok ex_doc = false /\
+  from_eebus (wire ex_doc) = render ex_doc /\ wire ex_doc <> render ex_doc /\
+  from_eebus_global (wire ex_doc) <> render ex_doc.
 Proof. exact ex_doc_ok. Qed.
 Print Assumptions C07_hypotheses_satisfiable.
